@@ -11,7 +11,7 @@ from pathlib import Path
 from typing import Any, Dict, Generator, Iterator, List, Optional, Tuple
 
 from mcheck.core.par import run_shards
-from mcheck.core.runner import Ctx, Result, Violation
+from mcheck.core.runner import VERIF, Ctx, Result, Violation
 from mcheck.gen import sigs as G
 from mcheck.oracles import stubeval as SE
 from mcheck.oracles import types as O
@@ -379,6 +379,78 @@ def reload_stage(ctx: Ctx) -> Result:
     return res
 
 
+DOTTED_ANNS = ["pkg.utils.C", "barfoo.Qux", "nest.Outer.Inner", "thing.thing", "pkg.typing.Union"]
+
+
+def dotted_annotation_stage(ctx: Ctx) -> Result:
+    """Source annotations written as DOTTED paths (string annotations, and plain ones under `from __future__ import
+    annotations`) next to unannotated positions whose traced classes come from modules named like a component of such a
+    path (utils vs pkg.utils, foo vs barfoo, typing vs pkg.typing, thing vs thing.thing): in the default mode the annotated
+    positions keep their annotation text, whatever the traced classes of the other positions are."""
+    import ast
+
+    from monkeytype.stubs import ExistingAnnotationStrategy as EAS
+    from monkeytype.stubs import build_module_stubs_from_traces
+    from monkeytype.tracing import CallTrace
+
+    collide = str(VERIF / "fixtures" / "collide")
+    if collide not in sys.path:
+        sys.path.insert(0, collide)
+    import barfoo
+    import foo
+    import nest
+    import pkg.typing
+    import pkg.utils
+    import thing
+    import utils
+
+    res = Result()
+    d = ctx.tmp / "c13_dotted"
+    d.mkdir(exist_ok=True)
+    if str(d) not in sys.path:
+        sys.path.insert(0, str(d))
+    traced_classes = [utils.B, foo.Baz, thing.thing, nest.Outer, List[utils.A], Optional[foo.Baz], pkg.utils.D, int]
+    for style in ("string", "postponed"):
+        for ai, ann in enumerate(DOTTED_ANNS):
+            q = (lambda t: repr(t)) if style == "string" else (lambda t: t)
+            name = f"c13dot_{ctx.seed}_{style}_{ai}"
+            src = ("from __future__ import annotations\n" if style == "postponed" else "") + "import barfoo, foo, nest, pkg.typing, pkg.utils, thing, utils\n\n\n"
+            src += f"def f(a: {q(ann)}, b, c: {q(ann)} = None, d=None) -> {q(ann)}:\n    return a\n"
+            (d / f"{name}.py").write_text(src)
+            importlib.invalidate_caches()
+            mod = importlib.import_module(name)
+            for ti, T in enumerate(traced_classes):
+                res.states += 1
+                res.transitions += 3
+                res.evaluations += 1
+                res.validated += 1
+                case = {"tier": ctx.tier, "module_index": -6, "dotted": [style, ai, ti]}
+                try:
+                    text = build_module_stubs_from_traces([CallTrace(mod.f, {"a": int, "b": T, "c": int, "d": T}, T, None)], 0, EAS.REPLICATE)[name].render()
+                    fn = next(n for n in ast.parse(text).body if isinstance(n, ast.FunctionDef) and n.name == "f")
+                except Exception as e:  # noqa: BLE001
+                    res.violate(Violation(ID, "exception", "dotted-source-annotation", case, f"{style} annotation {ann}: raised {e!r}"))
+                    continue
+                imported_from = [n.module for n in ast.parse(text).body if isinstance(n, ast.ImportFrom) and n.module]
+                args = {a.arg: (ast.unparse(a.annotation) if a.annotation is not None else None) for a in fn.args.args}
+                got = {"a": args.get("a"), "c": args.get("c"), "return": ast.unparse(fn.returns) if fn.returns is not None else None}
+                for pos, g in got.items():
+                    bare = (g or "").replace("'", "").replace('"', "")
+                    if pos == "c" and bare.startswith("Optional[") and bare.endswith("]"):
+                        bare = bare[len("Optional["):-1]
+                    # (the renderer writes names relative to the stub's `from M import ...` lines: a whole leading module
+                    # path M that the stub imports from may be dropped - nothing else may change)
+                    ok = bare == ann or any(ann == m + "." + bare for m in imported_from)
+                    if not ok:
+                        res.violate(Violation(ID, "annotation", "REPLICATE:dotted-source-annotation-kept:" + ("return" if pos == "return" else "param"), case, f"{style} source annotation {ann!r} at {pos}, another position traced as {O.show(T)}: the stub has {g!r}\n{text}"))
+                        break
+                else:
+                    res.nontrivial_n += 1
+            del sys.modules[name]
+    res.oblige("dotted-annotation-stage", True)
+    return res
+
+
 def run(ctx: Ctx) -> Result:
     mods = all_modules(ctx.tier)
     nshards = ctx.workers * 2
@@ -394,6 +466,8 @@ def run(ctx: Ctx) -> Result:
 
     res = run_shards(ctx, shard, list(range(nshards)))
     res.merge(reload_stage(ctx))
+    res.merge(dotted_annotation_stage(ctx))
+    res.obligations.setdefault("dotted-annotation-stage", False)
     res.obligations.setdefault("reload-stage", False)
     for s in ("REPLICATE", "OMIT", "IGNORE"):
         res.obligations.setdefault(f"strategy:{s}", False)
@@ -412,6 +486,8 @@ def replay(case: Dict[str, Any], ctx: Ctx) -> List[Violation]:
     srcdir.mkdir(exist_ok=True)
     sys.path.insert(0, str(srcdir))
     ctx.tier = case["tier"]
+    if case.get("module_index") == -6:
+        return dotted_annotation_stage(ctx).violations
     if case.get("module_index") == -5:
         return [v for v in reload_stage(ctx).violations if v.case.get("reload") == case.get("reload") and v.case.get("strategy") == case.get("strategy")] or reload_stage(ctx).violations
     pl, ak = mods[case["module_index"]]
